@@ -1,0 +1,21 @@
+//go:build verif
+
+package fsstore
+
+// Verification hooks, compiled in only with the "verif" build tag.
+// The hook is called immediately before each filesystem operation with the name of the
+// operation and the path it is about to touch.  A non-nil error is returned to the caller
+// in place of performing the operation (fault injection); the hook may also block
+// (schedule control) or not return at all (crash simulation).
+
+const verifEnabled = true
+
+// VerifHook is installed by the verification harness; nil means no-op.
+var VerifHook func(point string, path string) error
+
+func verifHook(point string, path string) error {
+	if h := VerifHook; h != nil {
+		return h(point, path)
+	}
+	return nil
+}
